@@ -902,7 +902,7 @@ theorem gen_point_along_path [Sqrt K] :
       PW.Gen.ArcLen.cumSrc = "np.cumsum([0, *self.segment_lengths])" ∧ PW.Gen.ArcLen.cumStart = 0 ∧
       PW.Gen.ArcLen.searchCmp = .lt ∧ PW.Gen.ArcLen.searchLhs = "DESIRED" ∧
       PW.Gen.ArcLen.searchRhs = "CUM.reshape(-1, 1)" ∧
-      PW.Gen.ArcLen.indexCoef = 1 ∧ PW.Gen.ArcLen.indexOffset = -1 ∧ PW.Gen.ArcLen.indexIsArgmax = true ∧
+      PW.Gen.ArcLen.indexCoef = 1 ∧ PW.Gen.ArcLen.indexOffset = -1 ∧ PW.Gen.ArcLen.indexIsArgmax = some true ∧
       PW.Gen.ArcLen.endCmp = .le ∧ PW.Gen.ArcLen.endLhs = "CUM[-1]" ∧ PW.Gen.ArcLen.endRhs = "DESIRED") ∧
     PW.Gen.ArcLen.resultSrc =
       "(DESIRED - CUM[INDEX]).reshape(-1, 1) * vg.normalize(self.segment_vectors[INDEX]) + self.v[INDEX]" ∧
@@ -934,7 +934,7 @@ attribute [local instance] fieldRounding
     and `edgeInserts` compute with exactly the generated operator, bound, flag and slice. -/
 theorem gen_subdivide_rule :
     (PW.Gen.ArcLen.roundingFn = "np.ceil" ∧ PW.Gen.ArcLen.quotientSrc = "self.segment_lengths / max_length" ∧
-      PW.Gen.ArcLen.subdivideCmp = .gt ∧ PW.Gen.ArcLen.subdivideRhs = 1 ∧ PW.Gen.ArcLen.insertEndpoint = false ∧
+      PW.Gen.ArcLen.subdivideCmp = .gt ∧ PW.Gen.ArcLen.subdivideRhs = 1 ∧ PW.Gen.ArcLen.insertEndpoint = some false ∧
       PW.Gen.ArcLen.insertDropFirst = 1) ∧
     PW.Gen.ArcLen.maskSrc =
       "NEEDED > 1 and (np.ones(self.num_e, dtype=bool) if edges_to_subdivide is None else edges_to_subdivide)" ∧
@@ -944,7 +944,7 @@ theorem gen_subdivide_rule :
     (∀ len maxLen : K, numNeeded len maxLen = ⌈len / maxLen⌉) ∧
     ∀ (maxLen : K) (sel : Bool) (a b : V3 K), edgeInserts maxLen sel a b =
       if sel && PW.Gen.ArcLen.subdivideCmp.test (numNeeded (ArcLength.dist a b) maxLen) PW.Gen.ArcLen.subdivideRhs then
-        ((linspace01 (numNeeded (ArcLength.dist a b) maxLen).toNat PW.Gen.ArcLen.insertEndpoint).map
+        ((linspace01 (numNeeded (ArcLength.dist a b) maxLen).toNat (PW.Gen.ArcLen.insertEndpoint.getD true)).map
           (lerp a b)).drop PW.Gen.ArcLen.insertDropFirst
       else [] := by
   refine ⟨⟨rfl, rfl, by decide, by decide, by decide, by decide⟩, rfl, rfl, rfl, fun _ _ => rfl, ?_⟩
@@ -953,17 +953,33 @@ theorem gen_subdivide_rule :
 
 end GenTiesFloor
 
-/-- `subdivided_by_length`, assembly: the vertices are split at `ES + 1` and interleaved with the inserted points; the
-    index offsets count the inserted points per edge, leaving out the closing edge (`[:-1]`) of a closed polyline
-    (the model's `interleave`, `subdividedIndices`). -/
+/-- column `i` of a pair of end points (`segments[:, i]`) -/
+def pairCol {α : Type} (s : α × α) (i : Int) : α := if i = 0 then s.1 else s.2
+
+/-- [semantic + text] `subdivided_by_length`, assembly.  Semantic: the index offsets of the original vertices are the
+    running sums of one leading `0` (`np.zeros(1)`) followed by the per-edge insert counts, leaving out the last edge
+    (`[:-1]`) of a closed polyline: the model's `subdividedIndices` computes with exactly the generated number of leading
+    zeros and slice bound.  Text only: `splitCoef/splitOffset` and the `…Src` strings — `np.vsplit(v, ES + 1)` chained
+    with the insert lists is array plumbing; the model's `interleave` states its result (each vertex followed by the
+    inserts of the edge that starts there) and is tied to it by the correspondence check. -/
 theorem gen_subdivide_assembly :
-    PW.Gen.ArcLen.splitCoef = 1 ∧ PW.Gen.ArcLen.splitOffset = 1 ∧ PW.Gen.ArcLen.samePolyline = true ∧
-    PW.Gen.ArcLen.assemblySrc =
-      "Polyline(is_closed=self.is_closed, v=np.concatenate(list(itertools.chain(*zip(np.vsplit(self.v, ES + 1), INSERTS + [np.empty((0, 3), dtype=self.POSITION_DTYPE)])))))" ∧
-    PW.Gen.ArcLen.countsSrc = "_set(np.zeros(self.num_e, dtype=np.int64), _0[ES], [len(vs) for vs in INSERTS])" ∧
-    PW.Gen.ArcLen.indicesSrc =
-      "np.arange(self.num_v) + np.sum(np.tril(np.broadcast_to(np.concatenate([np.zeros(1, dtype=np.int64), COUNTS[:-1] if self.is_closed else COUNTS]), (self.num_v, self.num_v))), axis=1)" :=
-  ⟨by decide, by decide, by decide, rfl, rfl, rfl⟩
+    (PW.Gen.ArcLen.splitCoef = 1 ∧ PW.Gen.ArcLen.splitOffset = 1 ∧ PW.Gen.ArcLen.samePolyline = some true ∧
+      PW.Gen.ArcLen.assemblySrc =
+        "Polyline(is_closed=self.is_closed, v=np.concatenate(list(itertools.chain(*zip(np.vsplit(self.v, ES + 1), INSERTS + [np.empty((0, 3), dtype=self.POSITION_DTYPE)])))))" ∧
+      PW.Gen.ArcLen.countsSrc = "_set(np.zeros(self.num_e, dtype=np.int64), _0[ES], [len(vs) for vs in INSERTS])" ∧
+      PW.Gen.ArcLen.indicesSrc =
+        "np.arange(self.num_v) + np.sum(np.tril(np.broadcast_to(np.concatenate([np.zeros(1, dtype=np.int64), COUNTS[:-1] if self.is_closed else COUNTS]), (self.num_v, self.num_v))), axis=1)") ∧
+    (PW.Gen.ArcLen.leadingZeros = 1 ∧ PW.Gen.ArcLen.closedDropStop = -1) ∧
+    ∀ {K : Type} (closed : Bool) (numV : Nat) (ins : List (List (V3 K))), subdividedIndices closed numV ins =
+      (let counts := ins.map List.length
+       let step := List.replicate PW.Gen.ArcLen.leadingZeros.toNat 0 ++
+         (if closed then counts.take ((counts.length : Int) + PW.Gen.ArcLen.closedDropStop).toNat else counts)
+       List.zipWith (· + ·) (List.range numV) (cumsumNat 0 step)) := by
+  refine ⟨⟨by decide, by decide, by decide, rfl, rfl, rfl⟩, by decide, ?_⟩
+  intro K closed numV ins
+  have h : ∀ n : Nat, ((n : Int) + -1).toNat = n - 1 := by intro n; omega
+  simp only [subdividedIndices, PW.Gen.ArcLen.leadingZeros, PW.Gen.ArcLen.closedDropStop, h, List.dropLast_eq_take]
+  rfl
 
 section GenTies2
 variable {K : Type} [Field K] [LinearOrder K] [IsStrictOrderedRing K]
@@ -1015,19 +1031,74 @@ theorem gen_subdivide_segments [Sqrt K] :
 
 end GenTies2
 
-/-- lengths, centroid and `with_segments_bisected` (refused with `ValueError` unless `np.ndim(segment_indices) == 1`;
-    midpoints `segments[idx].mean(axis=1)` inserted before `e[idx][:, 1]`): the expressions the model's
-    `segmentLengths`, `totalLength`, `pathCentroid`, `withSegmentsBisected` were written from. -/
+section GenTies3
+variable {K : Type} [Field K] [LinearOrder K] [IsStrictOrderedRing K] [Sqrt K]
+
+/-- [semantic + text] lengths, centroid and `with_segments_bisected`.  Semantic: `segment_lengths` is the distance between
+    columns 0 and 1 of `self.segments` and `path_centroid` weights by the distance between columns 0 and 1 of `segments`
+    (the model's `segmentLengths`, `pathCentroid` take exactly the generated columns); `with_segments_bisected` refuses
+    `np.ndim(segment_indices) != 1` with the generated class and inserts before column 1 of the selected edges (the
+    model's `withSegmentsBisected`, `oneDim` being `ndim = 1`).  Text only: `np.sum`, `np.average(…, axis=…)`,
+    `.mean(axis=1)` — reductions named by NumPy functions which the model writes out (`sumK`, `vsum`, `sdiv … two`). -/
 theorem gen_lengths_centroid_bisect :
-    PW.Gen.ArcLen.segmentLengthsSrc = "vg.euclidean_distance(self.segments[:, 0], self.segments[:, 1])" ∧
-    PW.Gen.ArcLen.totalLengthSrc = "np.sum(self.segment_lengths)" ∧
-    PW.Gen.ArcLen.polylineCentroidSrc = "path_centroid(self.segments)" ∧
-    PW.Gen.ArcLen.pathCentroidSrc =
-      "np.average(np.average(segments, axis=1), axis=0, weights=vg.euclidean_distance(segments[:, 0], segments[:, 1]))" ∧
-    (PW.Gen.ArcLen.bisectDimCmp = .ne ∧ PW.Gen.ArcLen.bisectDimLhs = "np.ndim(segment_indices)" ∧
-      PW.Gen.ArcLen.bisectDimRhs = 1 ∧ PW.Gen.ArcLen.bisectRaises = "ValueError") ∧
-    PW.Gen.ArcLen.bisectSrc =
-      "self.with_insertions(indices=self.e[segment_indices][:, 1], points=self.segments[segment_indices].mean(axis=1), ret_new_indices=ret_new_indices)" :=
-  ⟨rfl, rfl, rfl, rfl, ⟨by decide, rfl, by decide, rfl⟩, rfl⟩
+    (PW.Gen.ArcLen.segmentLengthsSrc = "vg.euclidean_distance(self.segments[:, 0], self.segments[:, 1])" ∧
+      PW.Gen.ArcLen.totalLengthSrc = "np.sum(self.segment_lengths)" ∧
+      PW.Gen.ArcLen.polylineCentroidSrc = "path_centroid(self.segments)" ∧
+      PW.Gen.ArcLen.pathCentroidSrc =
+        "np.average(np.average(segments, axis=1), axis=0, weights=vg.euclidean_distance(segments[:, 0], segments[:, 1]))" ∧
+      PW.Gen.ArcLen.centroidAxes = [1, 0] ∧ PW.Gen.ArcLen.bisectMeanAxis = 1 ∧
+      PW.Gen.ArcLen.bisectDimLhs = "np.ndim(segment_indices)" ∧
+      PW.Gen.ArcLen.bisectSrc =
+        "self.with_insertions(indices=self.e[segment_indices][:, 1], points=self.segments[segment_indices].mean(axis=1), ret_new_indices=ret_new_indices)") ∧
+    (PW.Gen.ArcLen.lengthFromColumn = 0 ∧ PW.Gen.ArcLen.lengthToColumn = 1 ∧
+      PW.Gen.ArcLen.centroidWeightFromColumn = 0 ∧ PW.Gen.ArcLen.centroidWeightToColumn = 1 ∧
+      PW.Gen.ArcLen.bisectDimCmp = .ne ∧ PW.Gen.ArcLen.bisectDimRhs = 1 ∧ PW.Gen.ArcLen.bisectRaises = "ValueError" ∧
+      PW.Gen.ArcLen.bisectEdgeColumn = 1) ∧
+    (∀ p : Polyline K, segmentLengths p = p.segments.map fun s =>
+      ArcLength.dist (pairCol s PW.Gen.ArcLen.lengthFromColumn) (pairCol s PW.Gen.ArcLen.lengthToColumn)) ∧
+    (∀ segs : List (V3 K × V3 K), pathCentroid segs =
+      (let lens := segs.map fun s => ArcLength.dist (pairCol s PW.Gen.ArcLen.centroidWeightFromColumn)
+         (pairCol s PW.Gen.ArcLen.centroidWeightToColumn)
+       let scl := sumK lens
+       if scl == 0 then .error .ZeroDivisionError
+       else .ok (V3.sdiv (vsum (List.zipWith (fun c w => V3.smul w c)
+         (segs.map fun s => V3.sdiv (s.1 + s.2) two) lens)) scl))) ∧
+    (∀ (ndim : Nat) (p : Polyline K) (segIdx : List Int),
+      withSegmentsBisected (decide (ndim = 1)) p segIdx =
+        if PW.Gen.ArcLen.bisectDimCmp.test (ndim : Int) PW.Gen.ArcLen.bisectDimRhs then
+          .error (PW.Gen.errOfName PW.Gen.ArcLen.bisectRaises)
+        else if !(segIdx.all (pyIdxOk p.numE)) then .error .IndexError
+        else
+          (let es := segIdx.map (pyIdx p.numE)
+           let mids := es.map fun e => V3.sdiv ((p.segments.getD e (V3.zero, V3.zero)).1 +
+             (p.segments.getD e (V3.zero, V3.zero)).2) two
+           let at_ := es.map fun e => pairCol (p.edges.getD e (0, 0)) PW.Gen.ArcLen.bisectEdgeColumn
+           .ok (⟨insertBefore p.v (List.zip at_ mids), p.closed⟩, indicesOfOriginal p.numV at_,
+             indicesOfInserted at_))) := by
+  refine ⟨⟨rfl, rfl, rfl, rfl, by decide, by decide, rfl, rfl⟩,
+    ⟨by decide, by decide, by decide, by decide, by decide, by decide, rfl, by decide⟩, fun _ => rfl, fun _ => rfl, ?_⟩
+  intro ndim p segIdx
+  unfold withSegmentsBisected
+  by_cases h : ndim = 1 <;>
+    simp [h, PW.Gen.Cmp.test, PW.Gen.ArcLen.bisectDimCmp, PW.Gen.ArcLen.bisectDimRhs, PW.Gen.ArcLen.bisectRaises,
+      PW.Gen.errOfName, PW.Gen.ArcLen.bisectEdgeColumn, pairCol]
+
+end GenTies3
+
+/-- [text] what the symbolic reader does not interpret, pinned to the source the model was written from: for every
+    function read by `harness/translate/c08.py` its decorators, its parameter list with defaults, the statements whose
+    effect is not modelled (imports, shape checks — any added in-place call, loop, `with`, `try`, `del`, … shows up here),
+    and the number of other bindings of its name in the enclosing scope. -/
+theorem gen_function_shapes :
+    PW.Gen.ArcLen.functionShapes =
+      [("Polyline.point_along_path", [], "self, fraction_of_total", ["importfrom from .._common.shape import columnize"], 0),
+       ("Polyline.subdivided_by_length", [], "self, max_length, edges_to_subdivide=None, ret_indices=False", ["import import itertools", "importfrom from ..segment import subdivide_segment", "expr vg.shape.check(locals(), 'edges_to_subdivide', (self.num_e,))"], 0),
+       ("Polyline.with_segments_bisected", [], "self, segment_indices, ret_new_indices=False", [], 0),
+       ("Polyline.segment_lengths", ["property"], "self", [], 0),
+       ("Polyline.total_length", ["property"], "self", [], 0),
+       ("Polyline.path_centroid", ["property"], "self", ["importfrom from ..segment import path_centroid"], 0),
+       ("subdivide_segment", [], "p1, p2, num_points, endpoint=True", ["expr vg.shape.check(locals(), 'p1', (-1,))", "expr vg.shape.check(locals(), 'p2', p1.shape)"], 0),
+       ("subdivide_segments", [], "v, num_subdivisions=5", ["expr vg.shape.check(locals(), 'v', (-1, -1))"], 0),
+       ("path_centroid", [], "segments", ["expr vg.shape.check(locals(), 'segments', (-1, 2, 3))"], 0)] := by rfl
 
 end PW.C08
